@@ -49,6 +49,10 @@ var optSets = [][]opt.Spec{
 	{opt.B("FormatDurationAsNano", true)},
 	{opt.B("EscapeForHTML", true), opt.B("EscapeForJS", true)},
 	{opt.B("Multiline", true)},
+	{opt.B("SpaceAfterComma", true)},
+	{opt.B("SpaceAfterColon", true), opt.B("SpaceAfterComma", true)},
+	{opt.B("SpaceAfterComma", true), opt.B("OmitZeroStructFields", true)},
+	{{Name: "WithIndentPrefix", S: " "}, opt.B("SpaceAfterComma", true)},
 	{opt.B("StringifyNumbers", true), {Name: "DefaultOptionsV1"}},
 }
 
